@@ -49,7 +49,10 @@ def run_check(prop: str, tier: str) -> int:
         res = analyse(prop, tier)
         extra = {}
         if tier == "thorough":
-            from sa import selftest
+            from sa import bytecheck, selftest
+            extra["bytecode_cross_check"] = bytecheck.cross_check(res.prog)
+            if extra["bytecode_cross_check"]["mismatches"]:
+                raise AnalysisError("AST store extraction disagrees with the bytecode: " + "; ".join(extra["bytecode_cross_check"]["mismatches"][:3]))
             extra["selftest"] = selftest.run_for(prop)
             if extra["selftest"].get("failed"):
                 raise AnalysisError("checker self-test failed: " + "; ".join(extra["selftest"]["failed"]))
